@@ -14,6 +14,7 @@ from ._errors import (
     DirectoryExpected,
     DirectoryNotEmpty,
     FileExpected,
+    IllegalBackReference,
     IllegalDestination,
     ResourceError,
     ResourceNotFound,
@@ -50,7 +51,18 @@ class OSFS(FS):
 
     def _abs(self, rel_path: str) -> Path:
         self.check()
-        return (self._root / rel_path.strip("/")).resolve()
+        rel_path = rel_path.strip("/")
+        # like the upstream `fs` package, refuse paths whose ".." components
+        # would lead out of this filesystem's root directory
+        depth = 0
+        for part in rel_path.replace("\\", "/").split("/"):
+            if part == "..":
+                depth -= 1
+                if depth < 0:
+                    raise IllegalBackReference(rel_path)
+            elif part not in ("", "."):
+                depth += 1
+        return (self._root / rel_path).resolve()
 
     def open(self, path: str, mode: str = "rb", **kwargs) -> IO[Any]:
         try:
